@@ -735,3 +735,79 @@ func RunFieldSetOnlyIn(c *Ctx, rule, pkg, typ, field string, allowed []string, w
 		c.R.Fail("vacuity", "-", rule, "no place sets "+pkg+"."+typ+"."+field+": re-point the rule")
 	}
 }
+
+// RunTypeWriteDiscipline: inside the listed packages, the only fields of pkgT.typ that are ever set (selector assignment,
+// keyed or positional composite literal) are those in allowed, and only in the functions listed for them.  Everything
+// else the value carries comes from elsewhere (here: from the Storage).  Used for "an inactive introspection answer
+// discloses nothing but active:false": the library itself fills in no field of the response except Active.
+func RunTypeWriteDiscipline(c *Ctx, rule, pkgT, typ string, pkgs []string, allowed map[string][]string, why string) {
+	n := 0
+	for _, fi := range c.P.Funcs {
+		if fi.Body == nil || fi.Ctl || fi.Lit != nil || !contains(pkgs, shortPkg(fi.Pkg.PkgPath)) {
+			continue
+		}
+		info := fi.Pkg.TypesInfo
+		isTyp := func(t types.Type) bool {
+			nt, _ := derefType(t).(*types.Named)
+			return nt != nil && nt.Obj().Name() == typ && nt.Obj().Pkg() != nil && shortPkg(nt.Obj().Pkg().Path()) == pkgT
+		}
+		report := func(pos token.Pos, field string) {
+			n++
+			for _, name := range c.attributed(fi) {
+				who, listed := allowed[field]
+				good := listed && (who == nil || contains(who, name))
+				c.R.Obl(Obligation{Rule: rule, Func: name, Construct: "write to " + typ + "." + field, Pos: c.P.Position(pos), Discharged: good, Nontrivial: true})
+				if !good {
+					c.R.Find(Finding{Rule: rule, Func: name, Construct: "write to " + typ + "." + field, Pos: c.P.Position(pos),
+						Msg: fmt.Sprintf("%s sets %s.%s.%s: %s", name, pkgT, typ, field, why)})
+				}
+			}
+		}
+		ast.Inspect(fi.Body, func(nd ast.Node) bool {
+			switch s := nd.(type) {
+			case *ast.AssignStmt:
+				for _, l := range s.Lhs {
+					// x.F = v, x.F.G = v, x.F[i] = v: the first selector on a value of the type decides the field
+					e := unparen(l)
+					for {
+						switch x := e.(type) {
+						case *ast.IndexExpr:
+							e = unparen(x.X)
+							continue
+						case *ast.StarExpr:
+							e = unparen(x.X)
+							continue
+						case *ast.SelectorExpr:
+							if sl, has := info.Selections[x]; has && sl.Kind() == types.FieldVal && isTyp(sl.Recv()) {
+								report(x.Pos(), x.Sel.Name)
+								e = nil
+							} else {
+								e = unparen(x.X)
+								continue
+							}
+						default:
+							e = nil
+						}
+						break
+					}
+				}
+			case *ast.CompositeLit:
+				if t := info.TypeOf(s); t != nil && isTyp(t) {
+					for _, el := range s.Elts {
+						if kv, ok := el.(*ast.KeyValueExpr); ok {
+							if k, ok := kv.Key.(*ast.Ident); ok {
+								report(kv.Pos(), k.Name)
+							}
+						} else {
+							report(el.Pos(), "(positional)")
+						}
+					}
+				}
+			}
+			return true
+		})
+	}
+	if n == 0 {
+		c.R.Fail("vacuity", "-", rule, "no write to a field of "+pkgT+"."+typ+" found in "+strings.Join(pkgs, ",")+": re-point the rule")
+	}
+}
